@@ -59,15 +59,12 @@ theorem fine_divM (a b : M) : Fine MagErr (divM a b) := by
 
 theorem fine_powM (a b : M) : Fine MagErr (powM a b) := by
   unfold powM
-  split
-  · split
-    · split
-      · exact Fine.error (Or.inl rfl)
-      · exact Fine.ok _
-    · split
-      · exact Fine.ok _
-      · split <;> exact Fine.ok _
-  all_goals first | exact Fine.ok _ | (split <;> first | exact Fine.ok _ | exact Fine.error trivial)
+  repeat' split
+  all_goals first
+    | exact Fine.ok _
+    | exact Fine.error (Or.inl rfl)
+    | exact Fine.error trivial
+    | (simp only []; split <;> first | exact Fine.ok _ | exact Fine.error trivial)
 
 theorem fine_floorM (up : Bool) (m : M) : Fine MagErr (floorM up m) := by
   unfold floorM; split <;> first | exact Fine.ok _ | exact Fine.error (Or.inr (Or.inr rfl))
